@@ -2,19 +2,16 @@ use hv::lsp::{Sandbox, Server};
 use serde_json::json;
 fn main() {
     let sb = Sandbox::new("dbg");
-    let settings = sb.settings(json!({}));
-    let mut srv = Server::start(&sb, settings, None).unwrap();
-    let text = "We like the frobnix very much.\nIs crème-x here?\nThis is an test line.\n";
-    std::fs::write(sb.ws_file("a.txt"), text).unwrap();
-    let uri = sb.uri("a.txt");
-    let d = srv.open(&uri, "plaintext", text).unwrap();
-    println!("open -> {:?}", d.iter().map(|d| d.key()).collect::<Vec<_>>());
-    let r = srv.execute_and_publish("HarperAddToUserDict", json!(["frobnix", uri]), &uri).unwrap();
-    println!("exec -> {:?}", r.iter().map(|d| d.key()).collect::<Vec<_>>());
-    let text2 = "We like the crème-x very much.\nIs frobnix here?\nThis is an test line.\n";
-    std::fs::write(sb.ws_file("a.txt"), text2).unwrap();
-    let d = srv.change(&uri, 2, text2).unwrap();
-    println!("change -> {:?}", d.iter().map(|d| d.key()).collect::<Vec<_>>());
-    println!("dict {:?}", std::fs::read_to_string(sb.user_dict()));
+    let mut srv = Server::start(&sb, sb.settings(json!({})), None).unwrap();
+    let rk = harper_stats::RecordKind::Lint { kind: harper_core::linting::LintKind::Spelling, context: vec![] };
+    let arg = serde_json::to_string(&rk).unwrap();
+    println!("arg {arg}");
+    let r = srv.execute("HarperRecordLint", json!([arg]));
+    println!("exec {:?}", r);
+    let id = srv.request("shutdown", serde_json::Value::Null).unwrap(); println!("shutdown -> {:?}", srv.wait_response(id, std::time::Duration::from_secs(5)));
     srv.shutdown().unwrap();
+    println!("stats {:?} exists={}", sb.stats(), sb.stats().exists());
+    println!("{:?}", std::fs::read_to_string(sb.stats()));
+    let out = std::process::Command::new("find").arg(&sb.root).output().unwrap();
+    println!("{}", String::from_utf8_lossy(&out.stdout));
 }
